@@ -11,6 +11,28 @@ use saito_core::core::consensus::wallet::Wallet;
 use saito_core::core::defs::{BlockId, PeerIndex, SaitoHash, SaitoPublicKey};
 use saito_core::core::io::interface_io::{InterfaceEvent, InterfaceIO};
 
+use std::sync::atomic::{AtomicBool, AtomicU8, Ordering};
+
+/// Storage semantics of the native node's handler as MEASURED by `ioprobe` under strace at check
+/// time (bin/check passes them on): does write_value replace the file through a temporary file
+/// and a rename, does the block listing skip leftover `*.tmp` files, and what does load_wallet
+/// do with a short file (0 = panics, 1 = returns an error, 2 = returns Ok). The defaults are the
+/// behaviour of the pinned tree.
+pub static WRITE_VIA_RENAME: AtomicBool = AtomicBool::new(false);
+pub static LIST_SKIPS_TMP: AtomicBool = AtomicBool::new(false);
+pub static SHORT_WALLET: AtomicU8 = AtomicU8::new(0);
+pub const TMP_SUFFIX: &str = ".tmp";
+
+pub fn set_io_model(write: &str, list: &str, short_wallet: &str) {
+    WRITE_VIA_RENAME.store(write == "rename", Ordering::SeqCst);
+    LIST_SKIPS_TMP.store(list == "skips-tmp", Ordering::SeqCst);
+    SHORT_WALLET.store(match short_wallet { "error" => 1, "ok" => 2, _ => 0 }, Ordering::SeqCst);
+}
+
+pub fn io_model() -> (bool, bool, u8) {
+    (WRITE_VIA_RENAME.load(Ordering::SeqCst), LIST_SKIPS_TMP.load(Ordering::SeqCst), SHORT_WALLET.load(Ordering::SeqCst))
+}
+
 pub const BLOCK_DIR: &str = "./data/blocks/";
 pub const CHECKPOINT_DIR: &str = "./data/checkpoints/";
 pub const WALLET_PATH: &str = "./data/wallet";
@@ -240,6 +262,7 @@ impl InterfaceIO for MemIo {
             .files
             .keys()
             .filter(|k| k.starts_with(BLOCK_DIR) && k[BLOCK_DIR.len()..].contains(".sai"))
+            .filter(|k| !(LIST_SKIPS_TMP.load(Ordering::SeqCst) && k.ends_with(TMP_SUFFIX)))
             .map(|k| {
                 (
                     *st.mtime.get(k).unwrap_or(&0),
@@ -321,7 +344,14 @@ impl InterfaceIO for MemIo {
             return Ok(());
         }
         let buffer = self.read_value(WALLET_PATH).await?;
-        // exactly what RustIOHandler::load_wallet does (no length guard)
+        // what RustIOHandler::load_wallet was measured to do with a file too short to hold the keys
+        if buffer.len() < 65 {
+            match SHORT_WALLET.load(Ordering::SeqCst) {
+                1 => return Err(Error::from(ErrorKind::InvalidData)),
+                2 => return Ok(()),
+                _ => {}
+            }
+        }
         wallet.deserialize_from_disk(&buffer);
         Ok(())
     }
